@@ -336,6 +336,23 @@ def check_driver_worlds(F, res):
                     bad = '%s issues end_instr_seq %d time(s) for a sequence whose current instruction is %s%s' % (
                         d, cnt('end_instr_seq', 1), var[0] if var else '?', cond)
                     continue
+            # what is scheduled, and in which (LIFO) order
+            pushes = [show(e['args'][1]) for c, dp, e in calls if c == 'push']
+            want = {'Block': ['.Block.0.seq'], 'Loop': ['.Loop.0.seq'], 'IfElse': ['.IfElse.0.alternative', '.IfElse.0.consequent']}
+            kids = want.get(var[0], []) if var else []
+            if sfx:
+                okp = len(pushes) == len(kids) and all(p.endswith(k) for p, k in zip(pushes, kids))
+            elif owner:
+                okp = len(pushes) == len(kids) + 1 and pushes[0].endswith(' Add 1))') and '!.0, ' in pushes[0] \
+                    and all(p.endswith(k + ', 0)') for p, k in zip(pushes[1:], kids))
+            else:
+                okp = not pushes
+            if var and not okp:
+                bad = ('%s schedules the wrong work for %s: the stack must receive %s%s, in that order (last pushed is visited '
+                       'first); it receives %s' % (d, var[0], '' if sfx else 'the resumption point (seq, index + 1) then ',
+                                                   ' then '.join(k.split('.')[-1] for k in kids) or 'nothing',
+                                                   [p[-48:] for p in pushes]))
+                continue
             n += 1
         if bad:
             res.bad('driver/%s/events-unconditional' % d, bad)
